@@ -167,6 +167,17 @@ func validate(c *lib.Ctx, dir string) error {
 }
 
 func judge(c *lib.Ctx, dir, name string, streams []stream) error {
+	// keep every TLC process at <= ~40 000 records: batches of 160 000 reads
+	total := 0
+	for i, s := range streams {
+		total += len(s.recs) + 1
+		if total > 160000 && i+1 < len(streams) {
+			if err := judge(c, dir, name, streams[:i+1]); err != nil {
+				return err
+			}
+			return judge(c, dir, name, streams[i+1:])
+		}
+	}
 	groups := make([][]rec, len(streams))
 	for i, s := range streams {
 		groups[i] = append([]rec{{A: -2, R: -1}}, s.recs...)
